@@ -35,7 +35,8 @@ EXTRA_PRESENTATIONS = [("dict_dense", "indices"), ("blocks_spm", "indices"), ("b
 PREBLOCKED = ("blocks", "blocks_spm", "bseries_spm")
 
 # symbol names: creation order and reversed-name order both differ from the name order
-SYMBOL_NAMES = ["a_z", "b_y", "c_x"]
+# (the names also have different lengths, and their length order differs from their name order)
+SYMBOL_NAMES = ["alpha_z", "by", "c_x1"]
 
 HEADER = """Require Import List Bool Arith ZArith QArith Qcanon.
 Require Import PV.Front.GaussQc PV.Front.SylvDiag PV.Front.SylvDiagProofs PV.Front.Normalize PV.Front.NormalizeInst PV.Front.Project.
